@@ -144,7 +144,7 @@ def run_rdflib_case(ctx, case: dict) -> dict | None:
     elif entry == "serialize":
         # Graph.serialize(format="jelly", options=...)
         try:
-            opts = make_stream(cfg).options
+            opts = core.make_options(cfg)
             stream = None
             if case.get("pass_stream"):
                 stream = make_stream(cfg)
@@ -168,7 +168,7 @@ def run_rdflib_case(ctx, case: dict) -> dict | None:
             model = impl_trace  # partial output before an error is not compared
     elif entry == "flat":
         try:
-            opts = make_stream(cfg).options if case.get("options_given", True) else None
+            opts = core.make_options(cfg) if case.get("options_given", True) else None
             for fr in rser.flat_stream_to_frames(data, opts):
                 trace.append(frame_tok(fr))
         except Exception:  # noqa: BLE001
